@@ -135,6 +135,11 @@ def oracle_recording(strategy, scitype):
         if isinstance(r, Raised):
             return [D("valid_fit_rejected:%s" % r.type, "n=%d wl=%d fh=%s: %s" % (n, wl, steps, r.msg))]
         ctx.label("feasible")
+        # the regressor object handed to the factory is a template: the rows go to copies of
+        # it, so another forecaster built from the same object cannot retrain this one's
+        if hasattr(reg, "fit_id_"):
+            return [D("callers_regressor_object_was_fitted", "%s/%s: the object given to %s recorded fit #%s itself" % (
+                strategy, scitype, case.get("entry") or "make_reduction", getattr(reg, "fit_id_", None)))]
         gapped = steps != list(range(1, len(steps) + 1))
         ctx.mark_nontrivial(gapped or case["n_exog"] > 0 or (wl > 1 and steps[-1] > 1))
         if gapped:
